@@ -21,6 +21,7 @@ pub fn dispatch(line: &str) -> String {
         "compile" => lang::compile(rest),
         "eval" => lang::eval(rest),
         "vmrun" => lang::vmrun(rest),
+        "core" => lang::core(rest),
         "builtin" => builtin::run(rest),
         "symtab" => symtab::run(rest),
         _ => format!("bad-op {}", op),
